@@ -16,6 +16,10 @@ GROUPS = {  # reference form -> forms that must return bit-identical results
 SCALAR = {'add_F': ('add', 'add_assign_F'), 'sub_F': ('sub', 'sub_assign_F'), 'mul_F': ('mul', 'mul_assign_F'), 'div_F': ('div', 'div_assign_F')}
 
 
+PRIM = {'i8': (-128, 127), 'i16': (-2 ** 15, 2 ** 15 - 1), 'i64': (-2 ** 63, 2 ** 63 - 1), 'i128': (-2 ** 127, 2 ** 127 - 1), 'isize': (-2 ** 63, 2 ** 63 - 1),
+        'u8': (0, 255), 'u16': (0, 2 ** 16 - 1), 'u32': (0, 2 ** 32 - 1), 'u64': (0, 2 ** 64 - 1), 'u128': (0, 2 ** 128 - 1), 'usize': (0, 2 ** 64 - 1)}
+
+
 class Prop(BaseProp):
     coq_targets = ['ND/Proofs/C08_forms.vo', 'ND/Proofs/C08_lift.vo']
     n_quick, n_thorough = 700, 12000
@@ -26,6 +30,17 @@ class Prop(BaseProp):
         self.groups = []   # (kind, [case ids], info)
         k = 0
         kinds = list(GROUPS) + list(SCALAR) + ['mul_add', 'consts']
+        # the 128-bit conversions beyond the 64-bit range and two more kinds at the ends of their ranges, on every type, every run
+        for ty in tys:
+            ids = []
+            picks = [('i128', -(1 << 63) - 1 - rng.below(1 << 40)), ('u128', (1 << 64) + rng.below(1 << 40)), ('i128', (1 << 100) + rng.below(1 << 50))]
+            for kd in (rng.choice(sorted(PRIM)), rng.choice(sorted(PRIM))):
+                picks.append((kd, rng.choice(PRIM[kd])))
+            for kd, v in picks:
+                c = Case('c%d' % len(out), ty, 'from_prim', [], [kd, v], tag='prim')
+                out.append(c)
+                ids.append(c.id)
+            self.groups.append(('prim', ids, None))
         while len(out) < n:
             ty = tys[k % len(tys)]
             kind = kinds[(k // len(tys)) % len(kinds)]
@@ -89,6 +104,18 @@ class Prop(BaseProp):
                 add('product0', [])
                 add('from_i32', [], [rng.choice([0, 1, -7, 42, 2 ** 31 - 1, -2 ** 31])])
                 self.groups.append(('consts', ids, None))
+                # the other integer conversions of FromPrimitive, values up to the ends of each range (64-bit leaves: Python's int -> float conversion
+                # is the correctly rounded one, as `n as f64`)
+                if ty.leaf().width == 64:
+                    ids = []
+                    for _ in range(2):
+                        kind = rng.choice(sorted(PRIM))
+                        lo, hi = PRIM[kind]
+                        v = rng.choice([lo, hi, 0, 1, hi // 2 + 1, lo // 3, rng.below(1 << 20), hi - rng.below(1 << 10), min(hi, (1 << 64) + rng.below(1 << 30)),
+                                        max(lo, -(1 << 63) - 1 - rng.below(1 << 30))])
+                        v = max(lo, min(hi, v))
+                        add('from_prim', [], [kind, v])
+                    self.groups.append(('prim', ids, None))
         return out
 
     def extra_checks(self):
@@ -130,6 +157,16 @@ class Prop(BaseProp):
                 lv = vlib.leaves(f, ty)
                 if any(v not in (0,) for v in lv[1:]):
                     self.violations.append(Violation('counterexample', 'From<F> on %s has a non-zero derivative part' % ty, case=C[ids[3]], obtained=f))
+            elif kind == 'prim':
+                for i in ids:
+                    r = impl[i]
+                    ty = C[i].ty
+                    pk, n = C[i].aux
+                    want = vlib.canon_bits(vlib.f2b(float(n)))
+                    lv = None if (r is None or r == 'panic') else vlib.leaves(r[1], ty)
+                    if lv is None or lv[0] != want or any(x != 0 for x in lv[1:]):
+                        self.violations.append(Violation('counterexample', 'FromPrimitive::from_%s(%d) on %s is not the lifted constant %r' % (pk, n, ty, float(n)), case=C[i],
+                                                         expected=want, obtained=r))
             elif kind == 'consts':
                 z, o, s0, p0, fi = (impl[i] for i in ids)
                 ty = C[ids[0]].ty
@@ -146,10 +183,13 @@ class Prop(BaseProp):
                     if lv[0] != vlib.canon_bits(vlib.f2b(float(n))) or any(x != 0 for x in lv[1:]):
                         self.violations.append(Violation('counterexample', 'from_i32(%d) on %s is not the lifted constant' % (n, ty), case=C[ids[4]], obtained=fi))
 
+    def model_applicable(self, case):
+        return case.op != 'from_prim' and BaseProp.model_applicable(self, case)
+
     def nontrivial(self, case, impl):
         return impl != 'panic' and case.op not in ('zero', 'one', 'sum0', 'product0')
 
     def rule_text(self):
         return ('groups of cases on identical operands: the five forms of each binary operator (and neg, inv/recip, sum/product by value and by reference) must be '
                 'bit-identical; scalar forms against their compound form (bit-identical) and against the operation with the lifted constant (numerically equal, '
-                '4 ulps for division); zero/one/empty sum/empty product/from_i32/From<F>/from_inner have zero derivative parts; mul_add against the model of x*a+b')
+                '4 ulps for division); zero/one/empty sum/empty product/from_i32/From<F>/from_inner and the other integer conversions of FromPrimitive (values to the ends of each range, 128-bit included) are the lifted constant with zero derivative parts; mul_add against the model of x*a+b')
